@@ -125,9 +125,9 @@ pub fn c13_translocate_n3() {
     if k == 21 { translocate_case::<3>(2, 3, 1); }
     if k == 22 { translocate_case::<3>(2, 3, 2); }
 }
-/// @verif anchor=translocate_slice tier=thorough bound="length 4; all 46 valid (range, index) cases (range.end <= length); all contents (in-place implementation alone)"
-#[cfg_attr(kani, kani::proof)] #[cfg_attr(kani, kani::unwind(7))]
-pub fn c13_translocate_single_n4() {
+// NOT registered: 36 minutes alone (50-minute limit at risk under load); all valid cases at lengths 1..6 are enumerated natively.
+#[allow(dead_code)]
+pub fn c13_translocate_single_n4_unregistered() {
     let k: usize = sym();
     assume(k < 46);
     if k == 0 { translocate_single_case::<4>(0, 0, 0); }
